@@ -15,6 +15,18 @@ type Shape = map[string]any
 
 var wellKnownKeys = []string{"host", "port", "caps", "s", "i", "v", "netId", "router.version", "mtu", "ihost0", "iport0", "ikey0", "itag0", "ih0", "iexp0", "hos", "hostx", "por", "portx", "cap", "capsx", "a", "b", "k"}
 
+// collisionGroups: distinct strings that collide under a common non-cryptographic hash function
+// (FNV-1a/32, CRC-32, Java's String.hashCode, DJB2, byte sum / xor). A set or cache keyed by such
+// a hash instead of by the string itself confuses the members of a group.
+var collisionGroups = [][]string{
+	{"costarring", "liquid"}, {"declinate", "macallums"}, {"altarage", "zinke"}, {"altarages", "zinkes"}, // FNV-1a 32
+	{"plumless", "buckeroo"},                                     // CRC-32
+	{"Aa", "BB"}, {"AaAa", "BBBB", "AaBB", "BBAa"}, {"Ea", "FB"}, // 31-multiplier polynomial
+	{"hetairas", "mentioner"}, {"heliotropes", "neurospora"}, {"depravement", "serafins"}, {"stylist", "subgenera"}, {"joyful", "synaphea"}, {"redescribed", "urites"}, {"dram", "vivency"}, // DJB2
+	{"ab", "ba"}, {"abc", "cab", "bca"}, {"ad", "bc"}, {"host", "hots", "shot"}, // byte sum / xor / anagrams
+	{"a\x00", "a"}, {"", "\x00"}, {"k", "k\x00\x00"}, // NUL padding / C-string truncation
+}
+
 func randKey(r *core.Rand) []byte {
 	switch r.Pick(10) {
 	case 0:
@@ -152,6 +164,20 @@ func Mapping(r *core.Rand, maxPairs int) rm.Mapping {
 		seen[string(k)] = true
 		total += len(k) + len(v) + 4
 		m.Pairs = append(m.Pairs, rm.Pair{K: k, V: v})
+	}
+	// now and then: all members of a hash-collision group as keys of one mapping; a value that
+	// spells the key of an earlier pair
+	if maxPairs >= 4 && r.Chance(1, 16) {
+		for _, k := range collisionGroups[r.Pick(len(collisionGroups))] {
+			if !seen[k] && total+len(k)+8 < 60000 {
+				seen[k] = true
+				m.Pairs = append(m.Pairs, rm.Pair{K: []byte(k), V: randVal(r)})
+			}
+		}
+	}
+	if len(m.Pairs) >= 2 && r.Chance(1, 12) {
+		j := 1 + r.Pick(len(m.Pairs)-1)
+		m.Pairs[j].V = append([]byte(nil), m.Pairs[r.Pick(j)].K...)
 	}
 	if r.Chance(7, 10) {
 		sort.SliceStable(m.Pairs, func(i, j int) bool { return string(m.Pairs[i].K) < string(m.Pairs[j].K) })
@@ -296,6 +322,20 @@ func RouterInfo(r *core.Rand) (rm.RouterInfo, Shape) {
 		ri.Addrs = append(ri.Addrs, RouterAddress(r))
 	}
 	ri.Options = SmallMapping(r)
+	if r.Chance(1, 3) {
+		// the options a real router publishes (every released version string, capability letters,
+		// network id), sorted
+		ri.Options = rm.Mapping{Pairs: []rm.Pair{
+			{K: []byte("caps"), V: []byte([]string{"LU", "XfR", "PfR", "NU", "OfRD", "KU", "MR", "f"}[r.Pick(8)])},
+			{K: []byte("netId"), V: []byte([]string{"2", "2", "2", "3", "17"}[r.Pick(5)])},
+			{K: []byte("router.version"), V: []byte([]string{"0.9.9", "0.9.16", "0.9.50", "0.9.57", "0.9.58", "0.9.59", "0.9.62", "0.9.65", "0.9.67", "0.9.99", "0.10.0", "1.0.0", "2.8.1", "0.9.58-rc"}[r.Pick(14)])},
+		}}
+		if r.Chance(1, 2) {
+			ri.Options.Pairs = append([]rm.Pair{{K: []byte("netdb.knownRouters"), V: []byte(fmt.Sprint(r.Pick(9000)))}}, ri.Options.Pairs[1:]...)
+			ri.Options.Pairs = append([]rm.Pair{{K: []byte("caps"), V: []byte("LfR")}}, ri.Options.Pairs...)
+			sort.SliceStable(ri.Options.Pairs, func(i, j int) bool { return string(ri.Options.Pairs[i].K) < string(ri.Options.Pairs[j].K) })
+		}
+	}
 	sl, _ := rm.SigLen(sh["sig"].(int))
 	ri.Sig = r.Bytes(sl)
 	sh["addrs"] = n
